@@ -48,7 +48,7 @@ Ref World::apply_names_types(const Op& op)
    case OP_get_identifier_w:
    case OP_get_identifier_s: {
       const ipr::String* str;
-      if (code == OP_get_identifier_w) str = &SUT(lex->get_string(word(op.a[0], op.a[1])));
+      if (code == OP_get_identifier_w) str = &note_string(SUT(lex->get_string(word(op.a[0], op.a[1]))));
       else str = &S(op.a[0]);
       const std::u8string w(str->characters());
       const ipr::Identifier& id = code == OP_get_identifier_w ? SUT(lex->get_identifier(ipr::util::word_view(w))) : SUT(lex->get_identifier(*str));
@@ -76,7 +76,7 @@ Ref World::apply_names_types(const Op& op)
    case OP_get_operator_w:
    case OP_get_operator_s: {
       const ipr::String* str;
-      if (code == OP_get_operator_w) str = &SUT(lex->get_string(word(op.a[0], op.a[1])));
+      if (code == OP_get_operator_w) str = &note_string(SUT(lex->get_string(word(op.a[0], op.a[1]))));
       else str = &S(op.a[0]);
       const std::u8string w(str->characters());
       const ipr::Operator& o = code == OP_get_operator_w ? SUT(lex->get_operator(ipr::util::word_view(w))) : SUT(lex->get_operator(*str));
@@ -247,7 +247,7 @@ Ref World::apply_names_types(const Op& op)
       const ipr::Literal* lit;
       if (code == OP_get_literal_w or code == OP_make_literal_w) {
          const std::u8string w = word(op.a[1], op.a[2]);
-         str = &SUT(lex->get_string(w));
+         str = &note_string(SUT(lex->get_string(w)));
          lit = code == OP_get_literal_w ? &SUT(lex->get_literal(t, ipr::util::word_view(w))) : SUT(lex->make_literal(t, ipr::util::word_view(w)));
       } else {
          str = &S(op.a[1]);
@@ -548,7 +548,13 @@ Ref World::apply_names_types(const Op& op)
    case OP_get_forall: {
       if (products.empty()) { Op o; o.code = OP_get_product_wh; o.a[0] = 1; nested(o); }
       const ipr::Product& s = *products.pick(op.a[0]);
-      const ipr::Type& t = T(op.a[1]);
+      const ipr::Type* tp = &T(op.a[1]);
+      // a Forall prints the body of a user-defined target in place: such a target is sealed (see can_seal_as_body)
+      if (Rec* tr = rec(nref(*tp)); tr != nullptr and is_udt_category(tr->exp.cat)) {
+         if (sealed_bodies.count(nref(*tp)) == 0 and not can_seal_as_body(*tp, step)) tp = &L.int_type();
+         else sealed_bodies.insert(nref(*tp));
+      }
+      const ipr::Type& t = *tp;
       const ipr::Forall& f = SUT(lex->get_forall(s, t));
       Reading e(int(Category_code::Forall));
       e.r("first", nref(s)).r("second", nref(t));
